@@ -30,7 +30,7 @@ def gen(rng, tier, i):
 
 
 from .. import gen as _gen  # noqa
-gen = _gen.with_lines(gen, ['disconnect', '_reset', '_write_loop', '_read_loop_polling', '_read_loop_websocket', 'connect', '_connect_websocket'])
+gen = _gen.with_lines(gen, ['_leave_connected_state', 'disconnect', '_reset', '_write_loop', '_read_loop_polling', '_read_loop_websocket', 'connect', '_connect_websocket'])
 
 def run(plan, sched_values=None, sched_seed=0):
     h = run_client_scenario(plan, sched_values, sched_seed)
